@@ -371,6 +371,11 @@ struct mszipd_stream *mszipd_init(struct mspack_system *system,
   zip->i_ptr = zip->i_end = &zip->inbuf[0];
   zip->o_ptr = zip->o_end = NULL;
   zip->bit_buffer = 0; zip->bits_left = 0;
+
+  /* a match may refer back to before the first byte of the stream:
+   * give that history a defined content instead of whatever the
+   * allocator returned */
+  memset(&zip->window[0], 0, MSZIP_FRAME_SIZE);
   return zip;
 }
 
